@@ -286,4 +286,36 @@ theorem desc_rootsOf (g : Graph) (xs : List Nat) (hd : Desc xs) : Desc (rootsOf 
   unfold rootsOf
   exact hd.sublist (List.filter_sublist)
 
+/-! ### every member lies below a head -/
+
+/-- every member of a bounded set lies below a head of the set -/
+theorem exists_head_above {g : Graph} (ht : Topo g.par) {S : Nat → Prop} {N : Nat} (hS : ∀ x, S x → x < N) :
+    ∀ (d x : Nat), N - x ≤ d → S x → ∃ h, HeadsOf g S h ∧ Path g.par h x := by
+  intro d
+  induction d with
+  | zero => intro x hd hx; have := hS x hx; omega
+  | succ d ih =>
+    intro x hd hx
+    by_cases hh : HeadsOf g S x
+    · exact ⟨x, hh, Path.refl _ _⟩
+    · have : ∃ q, S q ∧ q ≠ x ∧ Path g.par q x := by
+        apply Classical.byContradiction
+        intro hn
+        exact hh ⟨hx, hn⟩
+      obtain ⟨q, hq, hne, hp⟩ := this
+      have := hp.le ht
+      have := hS q hq
+      obtain ⟨h, hh', hhq⟩ := ih q (by omega) hq
+      exact ⟨h, hh', hhq.trans hp⟩
+
+theorem ancAll_heads {g : Graph} (ht : Topo g.par) {S : Nat → Prop} {N : Nat} (hS : ∀ x, S x → x < N) :
+    AncAll g (HeadsOf g S) = AncAll g S := by
+  funext p
+  apply propext
+  constructor
+  · rintro ⟨x, hx, hp⟩; exact ⟨x, hx.1, hp⟩
+  · rintro ⟨x, hx, hp⟩
+    obtain ⟨h, hh, hhx⟩ := exists_head_above ht hS (N - x) x (Nat.le_refl _) hx
+    exact ⟨h, hh, hhx.trans hp⟩
+
 end JjModel.Revset
